@@ -694,6 +694,15 @@ def shrink_csv(f, still_fails):
     return cur
 
 
+def case_rnd(case, salt=0):
+    """PRNG derived from the case itself: metamorphic variants are a function of the case, so a replay file
+    (which stores only the case) reproduces exactly the variants the check judged."""
+    import hashlib
+    import random
+    h = hashlib.sha1(json.dumps([case['kind'], case['file'], case['txns'], salt], sort_keys=True, default=str).encode()).hexdigest()
+    return random.Random(int(h[:16], 16))
+
+
 def job_of(case, oracle=False, norm=True):
     """case = {'kind': 'rules'|'csv', 'file': generator dict, 'txns': [...]}"""
     if case['kind'] == 'rules':
